@@ -4,15 +4,16 @@
 package main
 
 import (
-	"context"
-	"path/filepath"
-	"runtime"
 	"bufio"
+	"context"
 	"encoding/json"
 	"flag"
 	"fmt"
 	"math/rand"
 	"os"
+	"path/filepath"
+	"runtime"
+	"runtime/debug"
 	"sort"
 	"strings"
 	"time"
@@ -41,7 +42,7 @@ type Ctx struct {
 	out  *bufio.Writer
 	sub  int
 	// Corpus is the raw corpus input when the case replays a corpus entry (nil otherwise).
-	Corpus json.RawMessage
+	Corpus   json.RawMessage
 	CorpusOp string
 }
 
@@ -77,9 +78,9 @@ var corpusRunners = map[string]CorpusRunner{}
 // Res is the canonical three-outcome result.
 type Res map[string]interface{}
 
-func Ok(v interface{}) Res       { return Res{"res": "ok", "val": v} }
-func Err(kind string) Res        { return Res{"res": "err", "kind": kind} }
-func Panic(site string) Res      { return Res{"res": "panic", "site": site} }
+func Ok(v interface{}) Res  { return Res{"res": "ok", "val": v} }
+func Err(kind string) Res   { return Res{"res": "err", "kind": kind} }
+func Panic(site string) Res { return Res{"res": "panic", "site": site} }
 
 // Guard runs f and converts a panic on this goroutine into a Panic result.
 func Guard(f func() Res) (r Res) {
@@ -90,6 +91,12 @@ func Guard(f func() Res) (r Res) {
 				s = s[:200]
 			}
 			r = Panic(s)
+			// where it happened (kept in the replay file; the driver only looks at "res")
+			st := string(debug.Stack())
+			if len(st) > 6000 {
+				st = st[:6000]
+			}
+			r["stack"] = st
 		}
 	}()
 	return f()
